@@ -1,7 +1,7 @@
 """C14 — extending / cloning / transforming schemas keeps everything not targeted."""
 import ast
 
-from .. import shapes
+from .. import shapes, boolx
 from ..model import AnalysisError, own_nodes, norm_stmt
 
 TYPES = "py_gql.schema.types"
@@ -159,6 +159,38 @@ def check(prog, run):
         if how is None:
             run.report(r, "%s:Schema.clone:slot-not-carried(%s)" % (SCHEMA, s), clone.where(), "Schema.clone does not carry the slot %s" % s)
 
+    # ---- M2 the clone's registries hold every name the source's registries hold
+    r2 = run.rule("M2", "Schema.clone: for the type and the directive registry alike, either the clone is constructed with the "
+                        "source's entries (`Schema(..., types=<from self.types>, directives=<from self.directives>)`) or "
+                        "_replace_types_and_directives stores an entry on the executions where the name is not registered yet "
+                        "(the KeyError handler of its lookup); otherwise every type that is not reachable from the root types - an "
+                        "object type known only as the implementer of an interface, a type passed through `types=` - is missing "
+                        "from the clone and from every clone-based transform", 2)
+    rep = prog.get_func(SCHEMA, "Schema._replace_types_and_directives")
+    run.looked_at(rep)
+    ctor = [n for n in own_nodes(clone.node) if isinstance(n, ast.Call) and isinstance(n.func, ast.Name) and n.func.id == "Schema"]
+    shapes.require(len(ctor) == 1, "C14.M2: Schema.clone no longer constructs the clone with one Schema(...) call")
+    for kind in ("types", "directives"):
+        loops = [n for n in own_nodes(rep.node) if isinstance(n, ast.For) and any(
+            isinstance(x, ast.Name) and x.id == kind for x in ast.walk(n.iter))]
+        shapes.require(len(loops) == 1, "C14.M2: replacement loop over `%s` not found" % kind)
+        try:
+            _ev, lexits = boolx.walk_under(boolx.body_function(loops[0].body), lambda t: (False if t.replace(" ", "").endswith("isNone") else None))
+        except ValueError as e:
+            raise AnalysisError("C14.M2: %s" % e)
+        absent = [env for k_, st_, env in lexits if env.get(boolx.HANDLERS)]
+        shapes.require(bool(absent), "C14.M2: no execution of the `%s` loop enters a KeyError handler" % kind)
+        stores_when_absent = all(any(isinstance(x, ast.Assign) and any(isinstance(t, ast.Subscript) and ast.unparse(t.value) == "self.%s" % kind for t in x.targets)
+                                     for x in env.get(boolx.STMTS, ())) for env in absent)
+        kw = [k.value for k in ctor[0].keywords if k.arg == kind]
+        seeded = bool(kw) and any(isinstance(x, ast.Attribute) and x.attr == kind and isinstance(x.value, ast.Name) and x.value.id == "self" for x in ast.walk(kw[0]))
+        r2.instance("%s: replacement stores unregistered names: %s; clone constructed with self.%s: %s" % (kind, stores_when_absent, kind, seeded))
+        if not (stores_when_absent or seeded):
+            run.report(r2, "%s:Schema.clone:registry-not-carried(%s)" % (SCHEMA, kind), clone.where(ctor[0]),
+                       "the clone is built from the root types only and _replace_types_and_directives replaces registered %s but never adds "
+                       "one: a %s entry that the root types do not reach is missing from the clone (e.g. `interface Node  type A "
+                       "implements Node  type Query { node: Node }`: the clone has no A and Node has no possible types)" % (kind, kind))
+
     # ---- H1 every type reference has a healing site
     r = run.rule("H1", "every attribute that holds type references (Field.type, Argument.type, InputField.type, "
                        "ObjectType.interfaces, UnionType.types, the three root types) is re-resolved against the registry by the "
@@ -180,7 +212,6 @@ def check(prog, run):
                        "%s does not re-resolve .%s against the registry: a replaced type stays referenced through it" % (h, attr))
         elif m is not None:
             # path form: every execution that returns an element (not None) has assigned .attr from a _healed result
-            from .. import boolx
             try:
                 _ev, exits = boolx.walk_under(m.node, lambda t: None)
             except ValueError as e:
@@ -254,6 +285,61 @@ def check(prog, run):
     from .. import aliasmut
     aliasmut.check(prog, run, "A1", ["py_gql.sdl.ast_type_builder", "py_gql.sdl.schema_from_ast", "py_gql.schema"], 3,
                    "the schema an extension or transform started from would be modified (and left inconsistent with its lookup tables)")
+
+    # ---- U1 a changed member list is never dropped
+    ru = run.rule("U1", "schema visitors (schema_visitor.py, fix_type_references.py, transforms/**): wherever a method computes the updated "
+                        "members of an element (`X = map_and_filter(hook, element.members)`), then on every execution on which X differs "
+                        "from element.members (whatever else is true of X: empty, shorter, same length) X is used - handed to the "
+                        "constructor call that is returned, or stored into an attribute; an execution that returns without using it "
+                        "drops the change (a directive whose last argument was removed keeps it)", 9)
+    for f in prog.all_funcs():
+        if not (f.module.name in ("py_gql.schema.schema_visitor", "py_gql.schema.fix_type_references") or f.module.name.startswith("py_gql.schema.transforms")):
+            continue
+        if isinstance(f.node, ast.Lambda):
+            continue
+        for a in own_nodes(f.node):
+            if not (isinstance(a, ast.Assign) and len(a.targets) == 1 and isinstance(a.targets[0], ast.Name) and isinstance(a.value, ast.Call)
+                    and isinstance(a.value.func, ast.Name) and a.value.func.id == "map_and_filter" and len(a.value.args) == 2
+                    and isinstance(a.value.args[1], ast.Attribute)):
+                continue
+            X, orig = a.targets[0].id, " ".join(ast.unparse(a.value.args[1]).split())
+
+            def decide(t, X=X, orig=orig):
+                tt = " ".join(t.split())
+                if tt in ("%s == %s" % (X, orig), "%s == %s" % (orig, X), "%s is %s" % (X, orig), "%s is %s" % (orig, X)):
+                    return False            # the updated list differs from the original one
+                return None
+            try:
+                _ev, exits = boolx.walk_under(f.node, decide)
+            except ValueError as e:
+                raise AnalysisError("C14.U1: %s: %s" % (f.qualname, e))
+            dropped = None
+            n_ex = 0
+            for kind, st, env in exits:
+                if kind == "raise":
+                    continue
+                stmts = list(env.get(boolx.STMTS, ()))
+                if not any(x is a for x in stmts):
+                    continue
+                n_ex += 1
+                later = stmts[[i for i, x in enumerate(stmts) if x is a][-1] + 1:]
+                used = False
+                for x in later:
+                    names = lambda e: any(isinstance(y, ast.Name) and y.id == X for y in ast.walk(e))   # noqa: E731
+                    if isinstance(x, ast.Assign) and any(isinstance(t, (ast.Attribute, ast.Subscript)) for t in x.targets) and names(x.value):
+                        used = True
+                    elif isinstance(x, ast.Return) and x.value is not None and any(isinstance(c, ast.Call) and names(c) for c in ast.walk(x.value)):
+                        used = True
+                    elif isinstance(x, (ast.Assign, ast.Expr)) and any(isinstance(c, ast.Call) and names(c) for c in ast.walk(x.value)):
+                        used = True
+                if not used:
+                    dropped = st
+            ru.instance("%s: `%s = map_and_filter(.., %s)` used on all %d executions where it differs: %s" % (f.qualname, X, orig, n_ex, dropped is None))
+            if dropped is not None:
+                run.report(ru, "%s:%s:change-dropped(%s)" % (f.module.name, f.qualname, orig), f.where(dropped) if dropped is not None else f.where(a),
+                           "an execution on which `%s` differs from `%s` returns without using it: the decision to rebuild depends on "
+                           "something else than 'changed' (e.g. the emptiness of the new list), so removing the last member leaves the "
+                           "element as it was - still referring to what was removed" % (X, orig))
 
     # ---- W1 construction-time state is written into the schema before the traversal, never after it
     from ..cfg import event_paths
